@@ -286,6 +286,7 @@ def check_case(ctx, kind, c, t, pdesc, hang, tobj=None):
         ctx.violation("is_match", sig, case, {"matches_t_and_not_earlier_than_p": True},
                       {"result": impl.sstr(q), "local_in_t_zone": [list(c.cal_from_dn(int(gdn))), str(gtod)]})
     elif r[7] != want_inst:
+        sig = dict(sig, same_day_as_earliest=(int(gdn) == want[0]))
         ctx.violation("earliest", sig, case, {"instant": str(want_inst), "local": [list(c.cal_from_dn(want[0])), want[1]]},
                       {"result": impl.sstr(q), "later_by_s": str(r[7] - want_inst)})
     ctx.outcome("days_ahead", want[0] - ldn)
